@@ -579,6 +579,21 @@ class Interp:
         it = self.resolve(self.eval(st.iter, fr))
         if spec is not None:
             return self.cut_loop(st, fr, ordinal, spec, kind='for', iterable=it)
+        if isinstance(it, list):
+            # python iterates a list live, by index: removals/insertions during the loop are observed
+            idx = 0
+            while idx < len(it):
+                x = it[idx]
+                idx += 1
+                self.assign(st.target, x, fr)
+                try:
+                    self.exec_block(st.body, fr)
+                except BreakSig:
+                    return
+                except ContinueSig:
+                    continue
+            self.exec_block(st.orelse, fr)
+            return
         try:
             items = self.iterate_concrete(it, allow_dictview=True)
         except Unsupported as e:
